@@ -594,6 +594,15 @@ save_expansion(Expansion &expansion, const string &exp, const vector_string &par
       ++p;
       last = p;
 
+    } else if (isdigit(exp[p])) {
+      // A number.  Skip it whole, so that its suffix or exponent letters
+      // (0.5f, 1e3, 0x1F) are not mistaken for a parameter name.
+      ++p;
+      while (p < exp.size() &&
+             (isalnum(exp[p]) || exp[p] == '_' || exp[p] == '.')) {
+        ++p;
+      }
+
     } else {
       ++p;
     }
